@@ -232,3 +232,38 @@ int main(void){
   return 0;
 }
 #endif
+/* ------------------------------------------------------------------------------------------------------------------------------------
+ * MODE 6: solve_P_Q on the 1x1 complex model: forms P = V+U and Q = V-U with the extracted helpers and solves Q X = P column by column through GSL's LU
+ * routines (assumed contract: LU_solve(LU(Q),p) returns x with Q x = p for invertible Q).  Contract: (V-U) * result = V+U.                             */
+#if MODE==6
+struct perm { size_t n; int resets; };
+static void perm_reset(struct perm* p, size_t n){ p->n=n; p->resets++; }
+typedef struct { R* data; size_t size; } gsl_vector_complex; typedef struct { gsl_vector_complex vector; } gsl_vector_complex_view;
+static gsl_vector_complex_view gsl_matrix_complex_column(gsl_matrix_complex* m, size_t j){ gsl_vector_complex_view v; v.vector.data=m->data+2*j; v.vector.size=m->size1; return v; }
+static void gsl_matrix_complex_memcpy(gsl_matrix_complex* d, const gsl_matrix_complex* s){ d->data[0]=s->data[0]; d->data[1]=s->data[1]; }
+static gsl_complex gsl_complex_sub(gsl_complex a, gsl_complex b){ gsl_complex z={{a.dat[0]-b.dat[0],a.dat[1]-b.dat[1]}}; return z; }
+static void gsl_matrix_complex_sub(gsl_matrix_complex* O, const gsl_matrix_complex* I, gsl_complex s){
+//@BODY file=src/MatrixExp.cpp sig=/void\s+gsl_matrix_complex_sub\s*\(/ rules=common
+}
+static const gsl_matrix_complex* g_lu; static const struct perm* g_per; static int n_lu, n_solve;
+static int gsl_linalg_complex_LU_decomp(gsl_matrix_complex* A, struct perm* p, int* signum){ g_lu=A; g_per=p; n_lu++; *signum=1; return 0; }   /* 1x1: A is its own LU factor */
+static int gsl_linalg_complex_LU_solve(const gsl_matrix_complex* LU, const struct perm* p, const gsl_vector_complex* b, gsl_vector_complex* x){
+  R qr=LU->data[0], qi=LU->data[1], xr=nondet_R(), xi=nondet_R();
+  __CPROVER_assume(qr*xr-qi*xi==b->data[0] && qr*xi+qi*xr==b->data[1]);          /* Q x = b */
+  x->data[0]=xr; x->data[1]=xi; if(LU!=g_lu || p!=g_per) n_solve+=100; n_solve++; return 0; }
+static void solve_P_Q(gsl_matrix_complex* U, gsl_matrix_complex* V, gsl_matrix_complex* SPQ){
+  R hP[2],hQ[2]; struct holder P_={{1,1,1,hP}}, Q_={{1,1,1,hQ}}; struct perm per_s={0,0};
+//@BODY file=src/MatrixExp.cpp sig=/void\s+solve_P_Q\s*\(/ rules=common,pade,solvepq
+}
+int main(void){
+  R dU[2]={nondet_R(),nondet_R()}, dV[2]={nondet_R(),nondet_R()}, dX[2]={nondet_R(),nondet_R()};
+  gsl_matrix_complex U={1,1,1,dU}, V={1,1,1,dV}, X={1,1,1,dX};
+  R ur=dU[0],ui=dU[1],vr=dV[0],vi=dV[1];
+  __CPROVER_assume((vr-ur)*(vr-ur)+(vi-ui)*(vi-ui)>0);                                /* V-U invertible (guaranteed by the choice of the Pade order; trusted) */
+  solve_P_Q(&U,&V,&X);
+  __CPROVER_assert(n_lu==1 && n_solve==1, "C07: one LU factorisation of Q, one solve per column with that factorisation");
+  __CPROVER_assert(dU[0]==ur && dU[1]==ui && dV[0]==vr && dV[1]==vi, "C07: solve_P_Q does not modify U and V");
+  R qr=vr-ur, qi=vi-ui; __CPROVER_assert(qr*dX[0]-qi*dX[1]==vr+ur && qr*dX[1]+qi*dX[0]==vi+ui, "C07: the result X satisfies (V-U) X = V+U");
+  return 0;
+}
+#endif
